@@ -49,6 +49,15 @@ CHECKS = {
          "errors behind short-circuit) are skipped and counted. Commands run in-process; any suspected violation is re-run in "
          "fresh processes before it is reported.",
          "3 (C19)", "E1 bobproc"),
+ "C01": ("exploration",
+         "Hypothesis (project model, edit history) generation; metamorphic oracle incremental workspace == clean build at another path via content-recorder scripts and an independent tree canonicaliser; event-log oracle for the unchanged re-run",
+         "Generated projects and edit histories are built incrementally in one workspace through the real command line (dev and "
+         "release mode, with and without -j) and compared, package by package, with a from-scratch build of the final state at "
+         "another path; a repeated build must execute nothing. ~1000 histories per quick run.",
+         "Trusted: recorder scripts (vlib/scripts.py) make step output a pure function of the declared inputs; vlib/treecanon.py. "
+         "Bob runs in the harness process; suspected violations are confirmed with the real bob script in fresh processes. "
+         "git/url SCMs are covered by C12, sandboxing by C13.",
+         "3 (C01)", "E1 bobproc, E2 projgen, E3 scripts, E4 treecanon"),
 }
 
 NOT_YET = {}
@@ -91,6 +100,12 @@ def main():
              "kind_free_text": "16-shard Hypothesis driver, evidence merge, known-finding exclusion, replay"},
             {"name": "E4 treecanon", "path": "vlib/treecanon.py", "serves_properties": ["C01", "C05", "C06", "C07", "C08", "C11", "C12", "C15", "C16"],
              "kind_free_text": "independent canonical form of a directory tree (comparison oracle)"},
+            {"name": "E1 bobproc", "path": "vlib/bobproc.py", "serves_properties": ["C01", "C05", "C06", "C07", "C08", "C13", "C14", "C15", "C16", "C19"],
+             "kind_free_text": "runs Bob commands: in the harness process (direct), in a forked child, or as the real script"},
+            {"name": "E2 projgen", "path": "vlib/projgen.py", "serves_properties": ["C01", "C02", "C03", "C04", "C05", "C06", "C07", "C16", "C18", "C20"],
+             "kind_free_text": "project model, Hypothesis strategies, YAML renderer with logical clock, edit operations"},
+            {"name": "E3 scripts", "path": "vlib/scripts.py", "serves_properties": ["C01", "C05", "C06", "C07", "C16"],
+             "kind_free_text": "content-recorder step scripts, event log, fail/kill switches"},
             {"name": "E8 strlang", "path": "vlib/strlang.py", "serves_properties": ["C17"],
              "kind_free_text": "reference evaluator + renderer + strategies for the string/condition language"},
         ],
